@@ -17,7 +17,8 @@ int64_t evaluate_array_ref(
     const ASTNode *node, Interpreter &interpreter,
     std::function<int64_t(const ASTNode *)> evaluate_expression_func,
     std::function<Variable(const Variable &, const std::string &)>
-        get_struct_member_func) {
+        get_struct_member_func,
+    const std::vector<int64_t> *known_indices) {
     bool debug_mode = interpreter.is_debug_mode();
 
     debug_msg(DebugMsgId::EXPR_EVAL_ARRAY_REF, node->name.c_str());
@@ -80,18 +81,13 @@ int64_t evaluate_array_ref(
                   member_name.c_str());
 
         // 多次元インデックスを収集（一般化されたN次元対応）
-        std::vector<int64_t> indices;
-
-        // ネストした AST_ARRAY_REF から全てのインデックスを再帰的に収集
-        const ASTNode *current_node = node;
-        while (current_node &&
-               current_node->node_type == ASTNodeType::AST_ARRAY_REF) {
-            int64_t index =
-                evaluate_expression_func(current_node->array_index.get());
-            indices.insert(indices.begin(),
-                           index); // 先頭に挿入（逆順になるため）
+        // ネストした AST_ARRAY_REF の全てのインデックスを、ソース上の順
+        // （左から右）に一度だけ評価する
+        std::vector<int64_t> indices =
+            known_indices ? *known_indices
+                          : interpreter.extract_array_indices(node);
+        for (int64_t index : indices) {
             debug_msg(DebugMsgId::EXPR_EVAL_ARRAY_INDEX, index);
-            current_node = current_node->left.get();
         }
 
         if (debug_mode) {
@@ -177,7 +173,10 @@ int64_t evaluate_array_ref(
     if (node->left && node->left->node_type == ASTNodeType::AST_MEMBER_ACCESS) {
         std::string obj_name;
         std::string member_name = node->left->name;
-        int64_t index = evaluate_expression_func(node->array_index.get());
+        int64_t index =
+            (known_indices && !known_indices->empty())
+                ? known_indices->back()
+                : evaluate_expression_func(node->array_index.get());
 
         // 関数呼び出しの場合
         if (node->left->left &&
@@ -302,7 +301,9 @@ int64_t evaluate_array_ref(
         throw std::runtime_error("Cannot determine array name");
     }
 
-    std::vector<int64_t> indices = interpreter.extract_array_indices(node);
+    std::vector<int64_t> indices =
+        known_indices ? *known_indices
+                      : interpreter.extract_array_indices(node);
 
     Variable *var = interpreter.find_variable(array_name);
     if (!var) {
